@@ -118,6 +118,14 @@ def gen(tier, rng):
             c2 = rand_code(rng)
             s2 = render(c2, [rand_text(rng)]) if len(lines) == 1 else s
             cases.append(f"parse\t{hexs(render(code, lines[:-1] + [b'x'])[:-len(code) - 4] + s2)}\t-\t-")
+    # long replies: every line of a reply of 31 .. 1000 lines is kept, and the reply is consumed exactly (round 7: C04/m20, C06/m20
+    # bound the number of lines "for hardening")
+    for nl in (30, 31, 32, 33, 34, 40, 63, 64, 65, 66, 100, 128, 129, 200, 256, 257, 1000):
+        lines = [b"line %d of the reply" % i for i in range(nl)]
+        lines[nl - 2] = b"STARTTLS"
+        whole = render(b"250", lines, False)
+        cases.append("parse\t" + hexs(whole + b"220 next\r\n") + "\t250\t" + hexlist(lines))
+        cases.append("racc\t" + hexs(whole))
     # incremental path
     for i in range(nrr):
         k = rng.choice([1, 1, 2, 3, 4])
